@@ -20,7 +20,7 @@
       - the abstract map is a map: strictly sorted, one entry per key ([C01_abstract_is_map]).
     The set is the instance [V = unit] (its twins are stated at the end). *)
 From Coq Require Import List NArith Bool Sorted.
-From PT Require Import Refine Refine2 EntryApi InstEntry.
+From PT Require Import Refine Refine2 EntryApi InstEntry Arena ArenaProps.
 From PT.Properties Require Import Common.
 Import ListNotations.
 
@@ -286,6 +286,22 @@ Theorem C01_entry_or_insert (m : pmap pfx V) (q : pfx) (x : V) (a : eact V) :
   t_get w fl V (root (fst (t_entry_chain w fl V m q [a]))) q = Some v.
 Proof. exact (entry_or_insert_content pfx V _ _ _ _ _ _ _ _ _ (laws w fl Hw) m q x a). Qed.
 
+(** * The same statement about the ARENA-level transcription of the code (Arena*.v; ArenaProps.v
+      composes the refinement [Rep] with the tree-level theorem).  [areach am]: [am] is reached from
+      the empty arena by a history of arena-level mutator calls with valid prefixes. *)
+Theorem C01_arena (am : Arena.amap pfx V) :
+  areach pfx V (peq w) (contains w fl) (is_bit_set w) plen (lcp w fl) pzero (okp w) am ->
+  exists es, a_entries pfx V am = Ok es /\ StronglySorted key_lt es /\
+             NoDup (map (ekey w V) es) /\ (forall e, In e es -> okp w (fst e)).
+Proof. exact (arena_C01_entries pfx V _ _ _ _ _ _ _ _ _ (laws w fl Hw) am). Qed.
+
+Theorem C01_arena_get (am : Arena.amap pfx V) (es : list (pfx * V)) (q : pfx) :
+  areach pfx V (peq w) (contains w fl) (is_bit_set w) plen (lcp w fl) pzero (okp w) am -> okp w q -> a_entries pfx V am = Ok es ->
+  Arena.a_get pfx V (peq w) (contains w fl) (is_bit_set w) plen am q = Ok (a_get es q) /\
+  Arena3.a_get_key_value pfx V (peq w) (contains w fl) (is_bit_set w) plen am q = Ok (hit es q) /\
+  Arena3.a_contains_key pfx V (peq w) (contains w fl) (is_bit_set w) plen am q = Ok (match a_get es q with Some _ => true | None => false end).
+Proof. exact (arena_C01_get pfx V _ _ _ _ _ _ _ _ _ (laws w fl Hw) am es q). Qed.
+
 End C01.
 
 (* ---------------------------------------------------------------------------------------- *)
@@ -408,3 +424,5 @@ Print Assumptions adm_hop_ok.
 Print Assumptions C01_entry_chain.
 Print Assumptions C01_entry_insert.
 Print Assumptions C01_entry_or_insert.
+Print Assumptions C01_arena.
+Print Assumptions C01_arena_get.
